@@ -183,14 +183,17 @@ func (s *Streamsql) Execute(sql string) error {
 		return fmt.Errorf("failed to create stream processor: %w", err)
 	}
 
-	s.stream = streamInstance
-
 	// Register filter condition
-	if err = s.stream.RegisterFilter(condition); err != nil {
+	if err = streamInstance.RegisterFilter(condition); err != nil {
+		// Release what the constructor started (window, watermark and sink
+		// worker goroutines): the instance is dropped, a retry builds a new one.
+		streamInstance.Stop()
 		// Reset executed flag on error
 		atomic.StoreInt32(&s.executed, 0)
 		return fmt.Errorf("failed to register filter condition: %w", err)
 	}
+
+	s.stream = streamInstance
 
 	// Start stream processing
 	s.stream.Start()
